@@ -437,7 +437,7 @@ REPLAYS['names'] = lambda w, rp: __import__(
 # ---------------------------------------------------------------------------
 def _cand(world, seed, params, mode):
     from psim import cand as K
-    run = K.CandRun(world, seed, mode)
+    run = K.CandRun(world, seed, mode, big=params.get('big'))
     findings = run.run()
     out = {'findings': [], 'requests': run.stats['requests'],
            'probes': dict(run.stats['probes']), 'signatures': [],
